@@ -216,6 +216,40 @@ def _compose(tree):
             break
         head.append(ast.unparse(st))
     out += ldef("parseRecipeHead", head)
+    # ------------------------------------------------------------------ formula namespace: who shadows an option
+    rt = parse("snowfakery/data_generator_runtime.py")
+    sfv = find_func(rt, "simple_field_vars", cls="EvaluationNamespace")
+    rets = [n for n in sfv.body if isinstance(n, ast.Return)]
+    if len(rets) != 1 or not isinstance(rets[0].value, ast.Dict) or any(
+            isinstance(n, ast.Call) and isinstance(n.func, ast.Attribute) and n.func.attr in ("update", "setdefault")
+            for n in ast.walk(sfv)) or any(isinstance(n, ast.Subscript) and isinstance(n.ctx, ast.Store) for n in ast.walk(sfv)):
+        raise PinError("simple_field_vars: the namespace is no longer ONE dict literal (the order of its entries is the "
+                       "precedence of the layers; later entries override earlier ones)")
+    d = rets[0].value
+    layers, builtin_keys = [], []
+    tags = {"interpreter.options": "options", "interpreter.globals.object_names": "object_names",
+            "obj._values if obj else {}": "row_fields", "interpreter.plugin_function_libraries": "plugins",
+            "self.runtime_context.variable_definitions()": "variables"}
+    for k, v in zip(d.keys, d.values):
+        if k is not None:
+            if not isinstance(k, ast.Constant) or not isinstance(k.value, str):
+                raise PinError("simple_field_vars: non-literal key")
+            builtin_keys.append(k.value)
+            if not layers or layers[-1] != "builtins":
+                layers.append("builtins")
+        else:
+            src = ast.unparse(v)
+            if src not in tags:
+                raise PinError(f"simple_field_vars: unknown layer `**{src}`")
+            layers.append(tags[src])
+    out += ldef("namespaceLayers", layers, "the layers of the formula namespace, farthest first (a later layer overrides an earlier one)")
+    out += ldef("builtinKeys", builtin_keys, "the names the `builtins` layer binds")
+    fv = find_func(rt, "field_vars", cls="EvaluationNamespace")
+    rets = [n for n in fv.body if isinstance(n, ast.Return)]
+    if len(rets) != 1 or not isinstance(rets[0].value, ast.Dict) or any(k is not None for k in rets[0].value.keys):
+        raise PinError("field_vars: expected `{**a, **b}`")
+    out += ldef("fieldVarsMerge", [ast.unparse(v) for v in rets[0].value.values],
+                "`field_vars`: the standard functions are merged over everything")
     cr = module_constant(tree, "collection_rules")
     if not isinstance(cr, ast.Dict):
         raise PinError("collection_rules is no longer a dict literal")
